@@ -27,6 +27,9 @@ def histories(tier):
             out.add((b,) * n + (b,))
             out.add((b,) * n + (8,))
             out.add((8,) * n + (b,))
+    # empty message texts (length 0): an empty fatal message, alone and after empty / non-empty records; an empty record before a fatal one
+    for h in [(0,), (8, 0), (0, 8), (0, 0), (8, 9, 0), (0, 0, 0), (8, 0, 9)] + ([(16385, 0), (0, 16385)] if tier != "quick" else []):
+        out.add(h)
     return sorted(out, key=lambda h: (len(h), h))
 
 
@@ -41,6 +44,8 @@ def rot_key(name):
 
 
 def rec_text(i, ln, fatal):
+    if ln == 0:
+        return b""
     t = (b"FATAL" if fatal else b"r%d" % i) + b":"
     return t + b"x" * max(0, ln - len(t))
 
@@ -106,7 +111,8 @@ def run(tier):
     exe = build()
     hs = histories(tier)
     cases = [(c, s, th, h) for c in CFGS for s in SINKS for th in THREADS for h in hs
-             if not (len(h) > 1 and max(h) > 1000 and (c not in ("fluent", "oneline") or s in ("rot2", "rotdaily")))]   # the big-record family on a reduced product
+             if not (len(h) > 1 and max(h) > 1000 and (c not in ("fluent", "oneline") or s in ("rot2", "rotdaily")))
+             and not (0 in h and c in ("dupfatal", "filtered"))]   # an empty message equals the duplicate filter's initial text (dropping it is what C16 prescribes); the trace filter of `filtered` keys on the record text   # the big-record family on a reduced product
     cases += [(SLOW_CFG, s, th, h) for s in SINKS for th in THREADS for h in ((8,), (8, 9), (16385, 8))]
     root = tempfile.mkdtemp(prefix="verif-c11-", dir="/dev/shm")
     try:
